@@ -545,6 +545,8 @@ def packet_sequence(g, n, ex9, ex10, self_delimiting=True):
             pks.append((7, g.fixed(7, r.choice([0, 1, 2, 2, 29]))))
         elif m < 0.36:
             pks.append((10, g.ix_msg([])))              # a message with no sets: 16 bytes
+            if r.random() < 0.5:                         # ... and its twin: same export time, sequence number, domain
+                pks.append((10, list(pks[-1][1])))
         elif m < 0.40:
             pks.append((9, g.v9_hdr(0)))                # a V9 header announcing no flowsets: 20 bytes
         else:
@@ -645,6 +647,14 @@ def rounds_session(g):
     ops.append(call("b", buf2))
     if pre and k == len(pks):
         ops.append({"op": "round", "kind": "twinsout", "a": "a", "b": "b", "c": ""})
+    # replace one member of the set by another number (same size, different set): the next call is filtered by the new
+    # set (judged against the reference run under the new set)
+    gone = r.choice([5, 7, 9, 10])
+    swapped = sorted(set(everything) - {gone} | {r.choice([2, 11, 12, 4096])})
+    ops.append({"op": "allow", "p": "a", "allowed": swapped})
+    ops.append({"op": "round", "kind": "mark", "a": "", "b": "", "c": ""})
+    more = packet_sequence(g, r.choice([2, 3, 4]), ex9, ex10)
+    ops.append(call("a", [x for _, pk in more for x in pk]))
     # ---- trunc (C14)
     ex9, ex10 = Exporter(g, "v9"), Exporter(g, "ipfix")
     hist = packet_sequence(g, 3, ex9, ex10)
@@ -840,6 +850,27 @@ def long_chain_session(g, nbulk=5):
         ops.append(call("F", pk))
     ops.append({"op": "round", "kind": "chain", "a": "W", "b": "F", "c": ""})
     ops.append({"op": "round", "kind": "chain", "a": "S", "b": "F", "c": ""})
+    return ops
+
+
+def late_template_session(g, proto, kind):
+    """C07, last clause: data for a template the parser does not hold yet, then the template, then the same data bytes"""
+    r = g.r
+    e = Exporter(g, proto)
+    x = r.choice(e.ids)
+    e.new_def(x, kind=kind, unknown=False)
+    data = e.packet([e.data(x, r.choice([1, 2, 3]))])
+    tmpl = e.packet([e.tmpl_set([x])])
+    ops = ops_reset(("A",))
+    if r.random() < 0.5:
+        y = r.choice([t for t in e.ids if t != x])
+        e.new_def(y, kind="data", unknown=False)
+        ops.append(call("A", e.packet([e.tmpl_set([y]), e.data(y, 1)])))      # some unrelated history first
+        ops.append({"op": "round", "kind": "mark", "a": "", "b": "", "c": ""})
+    ops.append(call("A", data))
+    ops.append(call("A", tmpl))
+    ops.append(call("A", data))
+    ops.append({"op": "round", "kind": "late", "a": "A", "b": "", "c": ""})
     return ops
 
 
